@@ -12,6 +12,8 @@ import Proofs.ConvVJP
 import Proofs.DeconvVJP
 import Proofs.MaxpoolVJP
 import Proofs.DenseBlock
+import Proofs.ConvNet
+import Proofs.ChainLinks
 
 /-!
 # C01 — backpropagated gradients are the true derivatives of the objective
@@ -419,6 +421,161 @@ theorem dense_block_backward_is_gradient {d k : ℕ} (f : Feedback ℝ) (s : Sta
   have hgrad := Net.grad s.net x (Stack.net_ok s x hv hk) ℓ g hg
   exact ⟨_, _, _, ws, bs, s.net.bwd x g, block_forwardAll f s hf hv hpos x, DenseBlock.acts_last s x, hb, hgrad,
     fun j => hgrad.partial j⟩
+
+/-! ### the convolution on the model's own `Conv.forward` / `Conv.backward`, and a network mixing spatial and dense layers -/
+
+open ConvVJP ConvBridge in
+/-- **`Convolution::forward` is `a ∘ conv_K` and `Convolution::backward` returns its two transposed
+    Jacobians**, as statements about the model's `Conv.forward` / `Conv.backward` themselves (entry,
+    padding, `convolve`, activation, Hadamard product, scatter, crop, the `Except` plumbing): for every
+    stride, dilation, padding, kernel size, channel and filter count -/
+theorem conv_layer_backward_is_derivative {kf kc kh kw ih iw oh ow : ℕ} (l : Conv ℝ) (a : Act) (K : V (I4 kf kc kh kw))
+    (hl : IsConv l a K ih iw oh ow) (ha : a ≠ .softmax) (hfl : l.flatten = false) (x : V (I3 kc ih iw))
+    (hk : ∀ i, NoKink a (pre l K ih iw oh ow x i)) :
+    l.forward (T3 x) = .ok (T3 (pre l K ih iw oh ow x), T3 (fun i => Act.f a (pre l K ih iw oh ow x i))) ∧
+    ∃ (bx : V (I3 kf oh ow) → V (I3 kc ih iw)) (bK : V (I3 kf oh ow) → V (I4 kf kc kh kw)),
+      (∀ g, l.backward (T3 g) (T3 x) (T3 (pre l K ih iw oh ow x)) = .ok (T3 (bx g), T4 (bK g), none)) ∧
+      IsVJP (fun x' => fun i => Act.f a (pre l K ih iw oh ow x' i)) x bx ∧
+      IsVJP (fun K' => fun i => Act.f a (pre l K' ih iw oh ow x i)) K bK :=
+  layer_vjps l a K hl ha hfl x (fun i => act_hasDerivAt a ha _ (hk i))
+
+open ConvVJP ConvBridge ConvNet Flat3 DenseStack in
+/-- **end to end for a network mixing spatial and dense layers** — a convolution (any configuration,
+    element-wise activation, flattened because a dense layer follows) followed by a stack of dense layers of
+    any depth — **on the model's own `Network.forward` / `Network.backward` folds**: forward ends in the
+    network function's value; the last gradient backward hands on is the gradient of the objective with
+    respect to the input image; the weight gradient recorded for the convolution is the gradient with
+    respect to its kernels; every coordinate of both is the partial derivative -/
+theorem conv_then_dense_network_gradients {kf kc kh kw ih iw oh ow k : ℕ} (n : Network ℝ) (l : Conv ℝ) (a : Act)
+    (K : V (I4 kf kc kh kw)) (hl : IsConv l a K ih iw oh ow) (ha : a ≠ .softmax) (hfl : l.flatten = true)
+    (s : Stack (kf * oh * ow) k) (hn : n.layers = .conv l :: s.layers) (hc : n.connect = []) (hlb : n.loopbacks = [])
+    (hv : s.Valid) (x : V (I3 kc ih iw)) (hk : ∀ i, NoKink a (pre l K ih iw oh ow x i))
+    (hks : s.NoKinks (flat (convFn l a K ih iw oh ow x)))
+    (ℓ : Vec k → ℝ) (g : Vec k) (hg : IsGrad ℓ (netFn l a K ih iw s x) g) :
+    ∃ t ws bs gs γ ω,
+      n.forward (T3 x) = .ok t ∧ t.act.getLast? = some (vecT (netFn l a K ih iw s x)) ∧
+      n.backward (vecT g) t = .ok (ws, bs, gs) ∧ gs.getLast? = some (T3 γ) ∧ ws.getLast? = some (.one (T4 ω)) ∧
+      IsGrad (ℓ ∘ netFn l a K ih iw s) x γ ∧
+      IsGrad (fun K' => ℓ (netFn l a K' ih iw s x)) K ω ∧
+      (∀ q, HasDerivAt (fun r => ℓ (netFn l a K ih iw s (Function.update x q r))) (γ q) (x q)) ∧
+      (∀ q, HasDerivAt (fun r => ℓ (netFn l a (Function.update K q r) ih iw s x)) (ω q) (K q)) :=
+  conv_mlp_gradients n l a K hl ha hfl s hn hc hlb hv x hk hks ℓ g hg
+
+/-! ### any sequence of layers, on the model's own folds -/
+
+open LayerChain in
+/-- **the general end-to-end theorem**: a network (no skip / loop connections) whose layers are *any*
+    sequence of model layers each of which realises a vector function between tensor encodings —
+    `layerForward` returns the encoded value, `layerBackward` returns the encoded backward function — computes,
+    on the model's own `Network.forward` / `Network.backward` folds, the composition and its reverse-mode
+    composition; when every backward function is the transposed Jacobian at the point it is evaluated at,
+    the last gradient handed on is the gradient of the objective with respect to the network input, and the
+    weight gradient recorded for the first layer is that layer's weight-gradient function of the gradient the
+    rest of the network handed back (for any later layer: the sub-chain that starts there) -/
+theorem layer_sequence_network_gradient {a : Idx} {ea : Enc a} {c : Idx} {ec : Enc c} (n : Network ℝ) (ch : Chain a ea c ec)
+    (hn : n.layers = layers ch) (hc : n.connect = []) (hl : n.loopbacks = []) (x : V a.T) (hr : Real ch x)
+    (hok : (gnet ch).Ok x) (ℓ : V c.T → ℝ) (g : V c.T) (hg : IsGrad ℓ ((gnet ch).fwd x) g) :
+    ∃ t ws bs gs,
+      n.forward (ea x) = .ok t ∧ t.act.getLast? = some (ec ((gnet ch).fwd x)) ∧
+      n.backward (ec g) t = .ok (ws, bs, gs) ∧ gs.getLast? = some (ea ((gnet ch).bwd x g)) ∧
+      IsGrad (ℓ ∘ (gnet ch).fwd) x ((gnet ch).bwd x g) ∧ FirstGrads ch x g ws bs :=
+  network_gradient n ch hn hc hl x hr hok ℓ g hg
+
+open Network ChainLinks ConvVJP ConvBridge ConvNet Flat3 in
+/-- the layer kinds are such links: **dense** … -/
+theorem dense_is_link {r c : ℕ} (l : DenseLayer ℝ) (a : Act) (W : V (Fin r × Fin c)) (b : Vec r) (hl : IsDense l a W b)
+    (ha : a ≠ .softmax) (hr : 0 < r) (hc : 0 < c) (x : Vec c) (hk : ∀ i, NoKink a (densePre W b x i)) :
+    (layerForward (.dense l) (vecT x) = .ok (vecT (densePre W b x), vecT (denseFn (Act.f a) W b x), .none) ∧
+     ∀ g, layerBackward (.dense l) (vecT g) (vecT x) (vecT (densePre W b x)) (.ok .none) =
+      .ok (vecT (denseBwd a W b x g), (denseWG a W b x g).1, (denseWG a W b x g).2)) ∧
+    IsVJP (denseFn (Act.f a) W b) x (denseBwd a W b x) :=
+  ⟨real_dense l a W b hl ha hr hc x, vjp_dense a ha W b x hk⟩
+
+open Network ChainLinks ConvVJP ConvBridge ConvNet Flat3 in
+/-- … **convolution** followed by another spatial layer (input gradient and kernel gradient) … -/
+theorem conv_is_link {kf kc kh kw ih iw oh ow : ℕ} (l : Conv ℝ) (a : Act) (K : V (I4 kf kc kh kw))
+    (hl : IsConv l a K ih iw oh ow) (ha : a ≠ .softmax) (hfl : l.flatten = false) (x : V (I3 kc ih iw))
+    (hk : ∀ i, NoKink a (pre l K ih iw oh ow x i)) :
+    (layerForward (.conv l) (T3 x) = .ok (T3 (pre l K ih iw oh ow x), T3 (convFn l a K ih iw oh ow x), .none) ∧
+     ∀ g, layerBackward (.conv l) (T3 g) (T3 x) (T3 (pre l K ih iw oh ow x)) (.ok .none) =
+      .ok (T3 (convBwdX l a K ih iw oh ow x g), .one (T4 (convBwdKer l a K ih iw oh ow x g)), .one none)) ∧
+    IsVJP (convFn l a K ih iw oh ow) x (convBwdX l a K ih iw oh ow x) ∧
+    IsVJP (fun K' => convFn l a K' ih iw oh ow x) K (convBwdKer l a K ih iw oh ow x) :=
+  ⟨real_conv l a K hl ha hfl x, vjp_conv l a K hl ha x hk, vjp_conv_kernels l a K hl ha x hk⟩
+
+open Network ChainLinks ConvVJP ConvBridge ConvNet Flat3 in
+/-- … and **convolution followed by a dense layer** (output flattened, gradient read back as `kf × oh × ow`) -/
+theorem conv_flat_is_link {kf kc kh kw ih iw oh ow : ℕ} (l : Conv ℝ) (a : Act) (K : V (I4 kf kc kh kw))
+    (hl : IsConv l a K ih iw oh ow) (ha : a ≠ .softmax) (hfl : l.flatten = true) (x : V (I3 kc ih iw))
+    (hk : ∀ i, NoKink a (pre l K ih iw oh ow x i)) :
+    (layerForward (.conv l) (T3 x) = .ok (T3 (pre l K ih iw oh ow x), vecT (flat (convFn l a K ih iw oh ow x)), .none) ∧
+     ∀ g : Vec (kf * oh * ow), layerBackward (.conv l) (vecT g) (T3 x) (T3 (pre l K ih iw oh ow x)) (.ok .none) =
+      .ok (T3 (convBwdX l a K ih iw oh ow x (unflat g)), .one (T4 (convBwdKer l a K ih iw oh ow x (unflat g))), .one none)) ∧
+    IsVJP (fun x => flat (convFn l a K ih iw oh ow x)) x (fun g => convBwdX l a K ih iw oh ow x (unflat g)) :=
+  ⟨real_conv_flat l a K hl ha hfl x, vjp_conv_flat l a K hl ha x hk⟩
+
+open Network ChainLinks LayerChain ConvVJP ConvBridge ConvNet Flat3 DenseStack in
+/-- an instance with two spatial layers: **convolution → convolution → (flatten) → dense stack of any depth**,
+    every configuration of both convolutions: the input gradient and the first convolution's kernel gradient
+    that the model's folds return are the gradients of the objective -/
+theorem conv_conv_mlp_gradients {c0 h0 w0 f1 kh1 kw1 h1 w1 f2 kh2 kw2 h2 w2 k : ℕ} (n : Network ℝ)
+    (l1 : Conv ℝ) (a1 : Act) (K1 : V (I4 f1 c0 kh1 kw1)) (hl1 : IsConv l1 a1 K1 h0 w0 h1 w1) (ha1 : a1 ≠ .softmax) (hf1 : l1.flatten = false)
+    (l2 : Conv ℝ) (a2 : Act) (K2 : V (I4 f2 f1 kh2 kw2)) (hl2 : IsConv l2 a2 K2 h1 w1 h2 w2) (ha2 : a2 ≠ .softmax) (hf2 : l2.flatten = true)
+    (s : Stack (f2 * h2 * w2) k) (hv : s.Valid)
+    (hn : n.layers = .conv l1 :: .conv l2 :: s.layers) (hc : n.connect = []) (hlb : n.loopbacks = [])
+    (x : V (I3 c0 h0 w0))
+    (hk1 : ∀ i, NoKink a1 (pre l1 K1 h0 w0 h1 w1 x i))
+    (hk2 : ∀ i, NoKink a2 (pre l2 K2 h1 w1 h2 w2 (convFn l1 a1 K1 h0 w0 h1 w1 x) i))
+    (hks : s.NoKinks (flat (convFn l2 a2 K2 h1 w1 h2 w2 (convFn l1 a1 K1 h0 w0 h1 w1 x))))
+    (ℓ : Vec k → ℝ) (g : Vec k) :
+    let F := fun (K : V (I4 f1 c0 kh1 kw1)) (z : V (I3 c0 h0 w0)) =>
+      s.net.fwd (flat (convFn l2 a2 K2 h1 w1 h2 w2 (convFn l1 a1 K h0 w0 h1 w1 z)))
+    IsGrad ℓ (F K1 x) g →
+    ∃ t ws bs gs γ ω,
+      n.forward (T3 x) = .ok t ∧ t.act.getLast? = some (vecT (F K1 x)) ∧
+      n.backward (vecT g) t = .ok (ws, bs, gs) ∧ gs.getLast? = some (T3 γ) ∧ ws.getLast? = some (.one (T4 ω)) ∧
+      IsGrad (ℓ ∘ F K1) x γ ∧ IsGrad (fun K => ℓ (F K x)) K1 ω := by
+  intro F hg
+  let tail := consConvFlat (oh := h2) (ow := w2) l2 a2 K2 h1 w1 (stackChain s)
+  let ch := consConv (oh := h1) (ow := w1) l1 a1 K1 h0 w0 tail
+  have hfwdK : ∀ (K : V (I4 f1 c0 kh1 kw1)) (z : V (I3 c0 h0 w0)),
+      (gnet tail).fwd (convFn l1 a1 K h0 w0 h1 w1 z) = F K z := by
+    intro K z
+    simp only [tail, consConvFlat, gnet, GNet.fwd, stack_gnet_fwd, F]
+  have hfwd : (gnet ch).fwd = F K1 := by
+    funext z
+    simp only [ch, consConv, gnet, GNet.fwd]
+    exact hfwdK K1 z
+  have hreal : Real ch x := by
+    obtain ⟨r1, r2⟩ := real_conv l1 a1 K1 hl1 ha1 hf1 x
+    obtain ⟨q1, q2⟩ := real_conv_flat l2 a2 K2 hl2 ha2 hf2 (convFn l1 a1 K1 h0 w0 h1 w1 x)
+    exact ⟨r1, r2, q1, q2, stackChain_real s _ hv⟩
+  have htailok : (gnet tail).Ok (convFn l1 a1 K1 h0 w0 h1 w1 x) :=
+    ⟨vjp_conv_flat l2 a2 K2 hl2 ha2 _ hk2, stackChain_ok s _ hv hks⟩
+  have hok : (gnet ch).Ok x := ⟨vjp_conv l1 a1 K1 hl1 ha1 x hk1, htailok⟩
+  have hlayers : n.layers = LayerChain.layers ch := by
+    rw [hn]
+    simp only [ch, tail, consConv, consConvFlat, LayerChain.layers, stackChain_layers]
+  have hg' : IsGrad ℓ ((gnet ch).fwd x) g := by rw [hfwd]; exact hg
+  obtain ⟨t, ws, bs, gs, h1', h2', h3', h4', h5', h6'⟩ := network_gradient n ch hlayers hc hlb x hreal hok ℓ g hg'
+  have hpar := LayerChain.parameter_gradient (fun K' => convFn l1 a1 K' h0 w0 h1 w1 x) K1
+    (convBwdKer l1 a1 K1 h0 w0 h1 w1 x) (vjp_conv_kernels l1 a1 K1 hl1 ha1 x hk1) (gnet tail) htailok ℓ g
+    (by rw [hfwdK K1 x]; exact hg)
+  refine ⟨t, ws, bs, gs, (gnet ch).bwd x g, _, h1', ?_, h3', h4', h6'.1, ?_, ?_⟩
+  · rw [h2', hfwd]; rfl
+  · rw [← hfwd]; exact h5'
+  · have := hpar.1
+    simp only [hfwdK] at this
+    exact this
+
+open ConvVJP ConvBridge in
+/-- non-vacuity: a 2-filter 3×3 convolution with stride 2 and padding 1 on a 2×5×4 input is such a layer -/
+example (K : V (I4 2 2 3 3)) :
+    IsConv (kf := 2) (kc := 2) (kh := 3) (kw := 3)
+      { inputs := .triple 2 5 4, outputs := .triple 2 3 2, loops := 1, scale := fun x => 1 / x, kernels := kernelT K,
+        stride := (2, 2), padding := (1, 1), dilation := (1, 1), act := .tanh, dropout := none, flatten := true,
+        training := false } .tanh K 5 4 3 2 :=
+  ⟨rfl, rfl, rfl, rfl, rfl, by simp [Conv.extent, checkedSub], by norm_num, by decide⟩
 
 /-! non-vacuity: a 2×2 sigmoid layer satisfies every hypothesis -/
 example : ∀ i : Fin 2, NoKink .sigmoid (densePre (fun _ : Fin 2 × Fin 2 => (1 : ℝ)) (fun _ => 0) (fun _ => 1) i) := by
